@@ -357,6 +357,48 @@ def run_emptiness(ctx):
     return n
 
 
+def run_variable_filters(ctx):
+    """directed: a filter - plain, and with a key capture `[ k | clauses ]` - written directly after a variable whose values are structs,
+    at file, rule and block level, against the same filter written in place after the query, under comparisons, emptiness tests, blocks
+    and `some`. (For struct values the two readings of the inserted `[*]` coincide: recorded finding C15-star-after-variable is about
+    list values.)"""
+    docs = [{'Resources': {'a': {'Type': 'T', 'Properties': {'Size': 50}}, 'b': {'Type': 'U', 'Properties': {'Size': 5}}, 'c': {'Type': 'T', 'Properties': {'Size': 5}}}},
+            {'Resources': {'a': {'Type': 'T', 'Properties': {'Size': 50}}, 'b': {'Type': 'U', 'Properties': {'Size': 5}}}},
+            {'Resources': {'b': {'Type': 'U', 'Properties': {'Size': 5}}}}, {'Resources': {}}]
+    filters = ["[ Type == 'T' ]", "[ k | Type == 'T' ]", "[ name | Type == 'T' or Type == 'U' ]", "[ k | Properties.Size >= 10 ]", "[ k | Type == 'T' ][ Properties.Size >= 10 ]"]
+    tails = ['.Properties.Size >= 10', ' !empty', ' empty', '.Properties.Size exists', ' {\n    Properties.Size >= 10\n  }']
+    progs, meta = [], []
+    for d in docs:
+        for flt in filters:
+            for tail in tails:
+                for some in ('', 'some '):
+                    if some and tail.startswith(' {'):
+                        continue
+                    inplace = 'rule r {\n  %sResources.*%s%s\n}\n' % (some, flt, tail)
+                    forms = {'file': 'let res = Resources.*\nrule r {\n  %s%%res%s%s\n}\n' % (some, flt, tail),
+                             'rule': 'rule r {\n  let res = Resources.*\n  %s%%res%s%s\n}\n' % (some, flt, tail),
+                             'block': 'rule r {\n  Resources {\n    let res = this.*\n    %s%%res%s%s\n  }\n}\n' % (some, flt, tail.replace('\n  ', '\n    ')),
+                             'used-before': 'let res = Resources.*\nrule first {\n  %%res exists\n}\nrule r {\n  %s%%res%s%s\n}\n' % (some, flt, tail)}
+                    progs.append((inplace, json.dumps(d)))
+                    for lv, text in forms.items():
+                        progs.append((text, json.dumps(d)))
+                    meta.append((inplace, forms, d))
+    outs, raw = e2e.pair_outcomes(progs, ctx.wd, 'c15vflt', loader='cli')
+    n, k = 0, 0
+    for inplace, forms, d in meta:
+        o0, s0 = statuses(outs[k], raw[k]); k += 1
+        for lv, text in forms.items():
+            o1, s1 = statuses(outs[k], raw[k]); k += 1
+            n += 1
+            v0, v1 = (o0, sorted((s0 or {}).get('r') or [])), (o1, sorted((s1 or {}).get('r') or []))
+            if v0[1] != v1[1] or ((o0 in ('PASS', 'FAIL', 'SKIP')) != (o1 in ('PASS', 'FAIL', 'SKIP'))):
+                ctx.failing('a filter after a %s-level variable bound to Resources.*: rule r is %s, with the filter written in place %s' % (lv, v1, v0),
+                            {'class': 'abstraction', 'kind': 'filter directly after a variable with struct values', 'rules': text, 'variant': inplace, 'data': json.dumps(d)}, found=True)
+    ctx.coverage['variable_filter_scenarios'] = n
+    ctx.coverage['evaluations'] += len(progs)
+    return n
+
+
 CALL_BODIES = {
     'indep': '%p exists or %p !exists\n  Settings.Mode == "strict"',
     'guarded': 'when %p == %q {\n    Settings.Level >= 2\n  }',
@@ -468,6 +510,7 @@ def run(ctx):
     n += run_shadowing(ctx)
     n += run_calls(ctx)
     n += run_emptiness(ctx)
+    n += run_variable_filters(ctx)
     ctx.coverage['distinct_nontrivial'] = n
     ctx.coverage['rule'] = ('variant = generated program with one abstraction step (rhs literal/query -> %v at block, rule or file level; lhs query -> %v; unused variables at every '
                             'level incl. erroring ones; literal variables inlined; parameterised calls replaced by their body) x its document; counted when both evaluate')
